@@ -270,6 +270,73 @@ def _fault_case(args):
     return status, fired, seam, out
 
 
+def _outpath_case(args):
+    """Output paths that need the suffix correction, or that collide with
+    an input (as given, or after the correction): whatever the task does,
+    the inputs stay byte-identical, and a task that returns normally has
+    written a complete result to the corrected path."""
+    task, how, scratch = args
+    from dclab import cli
+    d = _fresh_dir(scratch, f"o_{task}_{how}")
+    out = []
+    case = {"task": task, "variant": 0, "preexist": False, "k": 0,
+            "kind": "outpath", "second": how}
+    where = f"dclab.cli.task_{task}:{task}"
+    tags = {"task": task, "kind": "outpath", "how": how}
+    try:
+        ins, outs, _ = prepare_inputs(task, 0, d, scratch)
+        first = [p for p in ins if p.suffix == ".rtdc"][0]
+        given = {"other-suffix": d / "result.compressed",
+                 "no-suffix": d / "result",
+                 "same-as-input": first,
+                 "input-stem": first.with_suffix(""),
+                 "input-stem-other-suffix": first.with_suffix(".new"),
+                 }[how]
+        want = given if given.suffix == ".rtdc" else given.with_name(
+            given.name + ".rtdc")
+        before = {p: sha(p) for p in ins}
+        fn = getattr(cli, task)
+        try:
+            if task == "join":
+                fn(paths_in=ins, path_out=given)
+            else:
+                fn(path_in=first, path_out=given)
+            status = "ok"
+        except BaseException as e:
+            status = f"{type(e).__name__}: {e}"
+        for p, h in before.items():
+            if not p.exists():
+                out.append(violation(
+                    where, "input-removed", case,
+                    f"{task} with output path '{given.name}' ({how}): "
+                    f"input {p.name} is gone (task: {status[:120]})", tags))
+            elif sha(p) != h:
+                out.append(violation(
+                    where, "input-modified", case,
+                    f"{task} with output path '{given.name}' ({how}): "
+                    f"input {p.name} changed (task: {status[:120]})", tags))
+        if status == "ok":
+            if want in ins:
+                pass        # reported above if the input was touched
+            elif not want.exists():
+                out.append(violation(
+                    where, "success-without-output", case,
+                    f"{task} returned normally for '{given.name}' but "
+                    f"{want.name} does not exist; directory: "
+                    f"{sorted(x.name for x in d.iterdir())}", tags))
+            else:
+                try:
+                    content_digest(want)
+                except BaseException as e:
+                    out.append(violation(
+                        where, "partial-output", case,
+                        f"{want.name} is not loadable: "
+                        f"{type(e).__name__}: {e}", tags))
+    finally:
+        shutil.rmtree(d, ignore_errors=True)
+    return out
+
+
 def run(ctx):
     scratch = ctx.scratch
     variants = (0, 3) if ctx.quick else (0, 1, 2, 3)
@@ -304,6 +371,12 @@ def run(ctx):
                               scratch))
     res = par.pmap(_fault_case, items)
     viols = list(viols0)
+    oitems = [(t, how, scratch)
+              for t in ("compress", "repack", "condense", "join")
+              for how in ("other-suffix", "no-suffix", "same-as-input",
+                          "input-stem", "input-stem-other-suffix")]
+    for vs in par.pmap(_outpath_case, oitems):
+        viols.extend(vs)
     statuses = {}
     seams = set()
     temp_left = 0
@@ -321,6 +394,7 @@ def run(ctx):
                 "output must be absent or loadable and equal to the "
                 "fault-free result, other files must be *.rtdc~",
         "crossings_per_scenario": info,
+        "output_path_cases": len(oitems),
         "outcomes": statuses,
         "seam_kinds": sorted(seams),
         "samples": [{"task": i[0], "variant": i[1], "k": i[3], "kind": i[4],
@@ -336,6 +410,8 @@ def run(ctx):
 
 
 def replay(case, ctx):
+    if case.get("kind") == "outpath":
+        return _outpath_case((case["task"], case["second"], ctx.scratch))
     g = _golden((case["task"], case["variant"], case["preexist"],
                  ctx.scratch))
     if "error" in g:
